@@ -8,6 +8,55 @@ from . import engine as E
 from .engine import SymReal, lift
 
 
+def _symbols(x):
+    """names of the z3 constants occurring in a scalar / array of (symbolic) values"""
+    out = set()
+    items = x.flat if isinstance(x, np.ndarray) else (x if isinstance(x, (list, tuple)) else [x])
+    for v in items:
+        t = lift(v) if not isinstance(v, (np.ndarray, list, tuple)) else None
+        if t is None:
+            if isinstance(v, (np.ndarray, list, tuple)):
+                out |= _symbols(v)
+            continue
+        st = [t]
+        seen = set()
+        while st:
+            u = st.pop()
+            if u.get_id() in seen:
+                continue
+            seen.add(u.get_id())
+            if z3.is_const(u) and u.decl().kind() == z3.Z3_OP_UNINTERPRETED:
+                out.add(u.decl().name())
+            st.extend(u.children())
+    return out
+
+
+def _record(outputs, inputs):
+    """provenance: which symbols each fresh contract symbol was derived from (engine.provenance)"""
+    eng = E.ENGINE
+    if eng is None:
+        return
+    prov = getattr(eng, 'provenance', None)
+    if prov is None:
+        prov = eng.provenance = {}
+    src = _symbols(inputs)
+    for name in _symbols(outputs):
+        prov.setdefault(name, set()).update(src)
+
+
+def provenance_closure(eng, names):
+    prov = getattr(eng, 'provenance', {}) or {}
+    seen = set()
+    st = list(names)
+    while st:
+        n = st.pop()
+        if n in seen:
+            continue
+        seen.add(n)
+        st.extend(prov.get(n, ()))
+    return seen
+
+
 def _has_sym(x):
     if isinstance(x, SymReal):
         return True
@@ -78,6 +127,7 @@ class _Linalg:
                 eng.assume(lift(sum(V[k, i] * V[k, j] for k in range(n))) == (1 if i == j else 0), 'linalg')
         for i in range(n - 1):
             eng.assume(w[i].t <= w[i + 1].t, 'linalg')
+        _record([w, V], M)
         return w.view(SymArray), V
 
     def qr(self, A, mode='reduced'):
@@ -111,6 +161,7 @@ class _Linalg:
         for i in range(n):
             for j in range(n):
                 eng.assume(lift(sum(W[i, l] * A[l, j] for l in range(n))) == (1 if i == j else 0), 'linalg')
+        _record(W, A)
         return W
 
 
